@@ -236,6 +236,78 @@ func init() {
 				}
 			}
 		})
+		c04BoundMidPass(r, shapes, cats, pools)
+	})
+}
+
+// c04BoundMidPass — (3) kube-scheduler binds the pending pod to its own, by now registered / initialized, node WHILE the
+// next pass is running: right before or right after any one API / provider call of Provisioner.Schedule. Whenever the
+// binding lands, the pass must not open a second NodeClaim for that pod (the node snapshot is taken before the pending
+// pods are listed, so the pod is either no longer pending or not yet counted on its node).
+func c04BoundMidPass(r *ev.Rec, shapes, cats []string, pools []int) {
+	stages := []string{"registered", "initialized"}
+	n := enum.Size(len(shapes), len(cats), len(pools), len(stages))
+	enum.Run(r, n, func(idx int64, l *ev.Local) {
+		d := enum.Odo(idx, len(shapes), len(cats), len(pools), len(stages))
+		c := SchedCase{Batch: []int{shapeIdx(shapes[d[0]])}, Catalog: cats[d[1]], Pool: pools[d[2]], Nodes: 0, DS: 0, Pref: options.PreferencePolicyRespect, MinV: options.MinValuesPolicyStrict, Workers: 1}
+		stage := stages[d[3]]
+		ex := &explore.Explorer{Bound: 1, MaxExecs: 5000, Stop: r.Expired}
+		ex.Exec = func(run *explore.Run) {
+			env := buildSched(c)
+			w := env.W
+			out := env.runPass(explore.Replay(nil), 1)
+			if out.Err != nil || len(out.Created) != 1 || out.Created[0] == nil {
+				l.Outcome("bound-mid-pass: pass1-created-no-single-nodeclaim")
+				return
+			}
+			ctrl := lifecycle.NewController(w.Clock, w.Client, w.CP, w.Rec, nodepoolhealth.NewState(), nil)
+			if _, ok := advance(w, ctrl, out.Created[0].Name, stage, 0); !ok {
+				l.Outcome("bound-mid-pass: launch-failed")
+				return
+			}
+			w.SyncCluster()
+			nc := w.GetNodeClaim(out.Created[0].Name)
+			if nc == nil || nc.Status.NodeName == "" || len(env.Pending) != 1 {
+				l.Outcome("bound-mid-pass: no-node")
+				return
+			}
+			w.Client.Log = nil
+			fired := ""
+			w.AttachInterleaveOpt(run, []string{"pod-bound-to-its-node"}, func(name, at string) bool {
+				p := &corev1.Pod{}
+				if err := w.Raw.Get(w.Ctx, clientKey(env.Pending[0].Namespace, env.Pending[0].Name), p); err != nil || p.Spec.NodeName != "" {
+					return false
+				}
+				world.Bound(nc.Status.NodeName)(p)
+				w.EnvUpdate(p)
+				w.SyncCluster()
+				fired = at
+				return true
+			}, true)
+			out2 := env.runPass(run, 1)
+			w.Client.Sched, w.Client.SchedAfter = nil, nil
+			l.Eval()
+			l.Traces++
+			if out2.Err != nil {
+				l.Outcome("bound-mid-pass: pass-error")
+				return
+			}
+			l.NontrivialH(ev.H(fmt.Sprintf("bmp/%d/%s", idx, fired)))
+			if fired == "" {
+				// the pod stayed pending: it must go to its in-flight node unless the oracle of part (2) says it cannot
+				l.Outcome(fmt.Sprintf("bound-mid-pass: no event, new-nodeclaims=%d", len(out2.Results.NewNodeClaims)))
+				return
+			}
+			l.Outcome(fmt.Sprintf("bound-mid-pass: stage=%s new-nodeclaims=%d", stage, len(out2.Results.NewNodeClaims)))
+			if len(out2.Results.NewNodeClaims) > 0 {
+				l.Violation("new NodeClaim opened for a pod that was bound to its own node while the pass was running: stage="+stage,
+					fmt.Sprintf("pod %s was bound to node %s (the node of the NodeClaim the previous pass created for it, stage %s) %s during the pass; the pass still opened %d new NodeClaim(s): %s  [%s]", env.Pending[0].Name, nc.Status.NodeName, stage, fired, len(out2.Results.NewNodeClaims), out2.Digest, c.String()),
+					map[string]any{"case": c, "stage": stage, "event_at": fired, "plan": run.Plan()})
+			}
+		}
+		ex.Explore()
+		noteDiverged(l, ex, "bound-mid-pass")
+		l.Transitions += int64(ex.Points)
 	})
 }
 
